@@ -136,7 +136,7 @@ func (g *zoneGen) service(owner, label string) {
 		if rapid.IntRange(0, 3).Draw(t, label+"_hint") == 0 {
 			h.IPv4Hint = []net.IP{g.ip4()}
 		}
-		g.z.HTTPS[owner] = append(g.z.HTTPS[owner], dnsfx.ZRec{TTL: g.ttl(), HTTPS: h})
+		g.z.HTTPS[owner] = append(g.z.HTTPS[owner], dnsfx.ZRec{TTL: g.ttl(), HTTPS: h, Mandatory: rapid.IntRange(0, 3).Draw(t, label+"_mandatory") == 0})
 	}
 }
 
